@@ -57,6 +57,9 @@ def ja_token(rng, word):
     if rng.random() < 0.5:
         # '*' is what the Japanese tokenizer writes for a word without a dictionary form
         t['base'] = rng.choice([word, word, '*'])
+    if rng.random() < 0.12:
+        # annotators keep the raw surface form next to the (normalised) word: the word of the derivation is `word`
+        t['surf'] = rng.choice(['ﾒﾛｽ', word + 'x', 'raw'])
     return t
 
 
